@@ -116,21 +116,23 @@ func detach(v reflect.Value) {
 // ---- the inliner
 
 type inliner struct {
-	p         *Prog
-	cand      map[*ssa.Function]bool
-	state     map[*ssa.Function]int // 1 in progress, 2 done
-	changed   map[*ssa.Function]bool
-	contPhis  map[*ssa.Phi]bool   // phis created for the results of an inlined call
-	literals  []*ssa.Function     // function literals made from go/defer of a helper
-	inlAllocs map[*ssa.Alloc]bool // allocations that came with an inlined body
-	inlined   map[*ssa.Function]int
-	skipped   map[ssa.Instruction]bool
-	Log       []string
-	nCalls    int
-	nDevirt   int
-	nThread   int
-	dead      map[*ssa.Function]bool
-	errs      []string
+	p          *Prog
+	cand       map[*ssa.Function]bool
+	state      map[*ssa.Function]int // 1 in progress, 2 done
+	changed    map[*ssa.Function]bool
+	contPhis   map[*ssa.Phi]bool // phis created for the results of an inlined call
+	literals   []*ssa.Function   // function literals made from go/defer of a helper
+	namedConds bool              // threading pass over every function: only edges carrying a boolean constant
+	nNamed     int
+	inlAllocs  map[*ssa.Alloc]bool // allocations that came with an inlined body
+	inlined    map[*ssa.Function]int
+	skipped    map[ssa.Instruction]bool
+	Log        []string
+	nCalls     int
+	nDevirt    int
+	nThread    int
+	dead       map[*ssa.Function]bool
+	errs       []string
 }
 
 func (p *Prog) inlineHelpers(pinned func(*ssa.Function) bool) *inliner {
@@ -177,13 +179,37 @@ func (p *Prog) inlineHelpers(pinned func(*ssa.Function) bool) *inliner {
 		}
 		il.cand[fn] = true
 	}
-	if len(il.cand) == 0 {
-		return il
-	}
 	for _, fn := range all {
-		if fn.Blocks != nil && fn.Synthetic == "" {
+		if fn.Blocks != nil && fn.Synthetic == "" && len(il.cand) > 0 {
 			il.process(fn)
 		}
+	}
+	// named conditions: `x := a || b; if x { … }` is given the control flow of `if a || b { … }` everywhere (the phi of
+	// constants that go/ssa builds for the variable is threaded edge by edge), so that naming a condition is not a change
+	for _, fn := range append(append([]*ssa.Function{}, all...), il.literals...) {
+		if fn.Blocks == nil || fn.Synthetic != "" || il.dead[fn] {
+			continue
+		}
+		n := 0
+		il.namedConds = true
+		for il.threadOne(fn) {
+			il.finish(fn)
+			n++
+			il.nNamed++
+		}
+		il.namedConds = false
+		if n > 0 {
+			for il.foldConstIf(fn) || il.fuseOne(fn) {
+				il.finish(fn)
+			}
+			var buf bytes.Buffer
+			if !ssaSanityCheck(fn, &buf) {
+				il.errs = append(il.errs, fmt.Sprintf("%s: %s", fnName(fn), strings.TrimSpace(buf.String())))
+			}
+		}
+	}
+	if len(il.cand) == 0 {
+		return il
 	}
 	// a helper every call of which was inlined, and that nothing else refers to, is no longer part of the program
 	refs := map[*ssa.Function]int{}
@@ -1144,13 +1170,25 @@ func (il *inliner) threadOne(fn *ssa.Function) bool {
 				pure = false
 			}
 		}
-		if !pure || !(hasCont || inlBlocks[M]) || len(phis) == 0 {
+		if !pure || !(hasCont || inlBlocks[M] || il.namedConds) || len(phis) == 0 {
 			continue
 		}
 		for i, P := range M.Preds {
 			r := evalOnEdge(M, ifi.Cond, i)
 			if r < 0 {
 				continue
+			}
+			if il.namedConds && !(hasCont || inlBlocks[M]) {
+				// outside inlined code only the short-circuit constants of a named condition are threaded
+				allBool := true
+				for _, ph := range phis {
+					if b, ok := ph.Type().Underlying().(*types.Basic); !ok || b.Kind() != types.Bool {
+						allBool = false
+					}
+				}
+				if !allBool {
+					continue
+				}
 			}
 			T := M.Succs[0]
 			if r == 0 {
